@@ -821,8 +821,19 @@ def _ox_chain(*txs):
   return GradientTransformation(init, update)
 
 
+def _ox_global_norm(tree):
+  """optax.global_norm: sqrt of the sum of squares over ALL array leaves of the tree."""
+  leaves = [l for l in pytree.flatten(tree)[0] if isinstance(l, Tensor)]
+  tot = 0.0
+  for l in leaves:
+    nl = T.norm(l)
+    tot = tot + nl * nl
+  cur().axioms_used.add("optax.global_norm(tree) = sqrt(sum over leaves of |leaf|^2)")
+  return _sqrt(T.asarray(tot))
+
+
 def make_optax():
-  return NS(MaskedNode=MaskedNode, EmptyState=EmptyState, GradientTransformation=GradientTransformation,
+  return NS(global_norm=_ox_global_norm, MaskedNode=MaskedNode, EmptyState=EmptyState, GradientTransformation=GradientTransformation,
             TraceState=TraceState, MaskedState=MaskedState, identity=_ox_identity, scale=_ox_scale,
             scale_by_schedule=_ox_scale_by_schedule, trace=_ox_trace,
             add_decayed_weights=_ox_add_decayed_weights, chain=_ox_chain,
